@@ -540,6 +540,19 @@ Proof.
 Qed.
 Print Assumptions c08_index_cache_path_keyed_times_refuted.
 
+(* THE SOURCE HAS THE SHAPE Model/CachesIndex.rc_get TRANSCRIBES (regenerated on every
+   run; local names are discovered from the statements that bind them): without an
+   ETag the index is fetched and parsed and nothing is stored; with one the result -
+   index or error - is stored once (sync.Once per key) under <entry key>@<etag>, the
+   entry key being the key the local branch uses; the entry of the ETag recorded
+   before is forgotten, the ETag is recorded, what is stored under the key is returned. *)
+Theorem c08_source_shape_remote_index_cache :
+  C08Caches.index_remote_shape =
+  ["no-etag:fetched-and-parsed-nothing-stored"; "key:entry-key@etag"; "once-per-key"; "forgets:the-entry-of-the-previous-etag";
+   "stores:the-index-or-the-error"; "records:the-etag-of-the-entry-key"; "returns:what-is-stored-under-the-key"].
+Proof. reflexivity. Qed.
+Print Assumptions c08_source_shape_remote_index_cache.
+
 (* THE REMOTE BRANCH OF THE INDEX CACHE IS TRANSPARENT when the ETag names the bytes.
    A remote index is stored once under cacheURL@ETag and handed to every later
    request with that key; without an ETag it is fetched and parsed every time
